@@ -5,6 +5,10 @@ import Props.C17
 #print axioms SpyneModel.Props.C17.plumbing_direct
 #print axioms SpyneModel.Props.C17.safe_iff_arguments
 #print axioms SpyneModel.Props.C17.configuration_private
+#print axioms SpyneModel.Props.C17.no_writes_after_init
+#print axioms SpyneModel.Props.C17.request_time_is_constructor
+#print axioms SpyneModel.Props.C17.safe_invariant
+#print axioms SpyneModel.Props.C17.defaults_safe_at_request
 #print axioms SpyneModel.Props.C17.all_request_sites_use_kwargs
 #print axioms SpyneModel.Props.C17.all_request_sites_catch
 #print axioms SpyneModel.Props.C17.request_roles_good
